@@ -1,5 +1,5 @@
 //@PROBE file=src/track/store.rs test=verif_probe_store_c09 clauses=C09/ units=store_future_merge,store_c09
-//@BOUND shard counts 1..=5; a rejected duplicate leaves the stored track as it was; ids 0..=5 and wide ids (2^32+1, 2*2^32+2, 7*2^40+3, 0x9e3779b97f4a7c15, u64::MAX-1, u64::MAX); merges over {dest missing, src missing, same id, attribute-merge failure, optimize failure, success} x {remove_src yes/no}; the failure cases also for a source without any observation class and for class lists None / empty / [0]; add() on a missing id vs builder
+//@BOUND shard counts 1..=5; repeated owned merges of a kept source append its history every time; lookups and usable scans over tracks that are ready / pending / wasted / whose status computation fails; a rejected duplicate leaves the stored track as it was; ids 0..=5 and wide ids (2^32+1, 2*2^32+2, 7*2^40+3, 0x9e3779b97f4a7c15, u64::MAX-1, u64::MAX); merges over {dest missing, src missing, same id, attribute-merge failure, optimize failure, success} x {remove_src yes/no}; the failure cases also for a source without any observation class and for class lists None / empty / [0]; add() on a missing id vs builder
 #[cfg(test)]
 mod verif_probe_store_c09 {
     use super::*;
@@ -14,12 +14,20 @@ mod verif_probe_store_c09 {
     }
     impl TrackAttributes<PAttrs, f32> for PAttrs {
         type Update = PUpd;
-        type Lookup = NoopLookup<PAttrs, f32>;
+        type Lookup = NoopLookup<PAttrs, f32, true>;
         fn compatible(&self, _o: &PAttrs) -> bool { true }
         fn merge(&mut self, o: &PAttrs) -> Result<()> {
             if o.fail_merge { Err(anyhow::anyhow!("attribute merge fails")) } else { self.v += 100; Ok(()) }
         }
-        fn baked(&self, _o: &ObservationsDb<f32>) -> Result<TrackStatus> { Ok(TrackStatus::Ready) }
+        // the status is read off the first class-0 observation: 701 pending, 801 wasted, 901 the status computation fails, else ready
+        fn baked(&self, o: &ObservationsDb<f32>) -> Result<TrackStatus> {
+            match o.get(&0).and_then(|v| v.first()).and_then(|x| x.0) {
+                Some(x) if x == 701.0 => Ok(TrackStatus::Pending),
+                Some(x) if x == 801.0 => Ok(TrackStatus::Wasted),
+                Some(x) if x == 901.0 => Err(anyhow::anyhow!("status computation fails")),
+                _ => Ok(TrackStatus::Ready),
+            }
+        }
     }
     #[derive(Clone, Default)]
     struct PMetric { st: u64 }
@@ -70,6 +78,21 @@ mod verif_probe_store_c09 {
             let mut ids: Vec<u64> = got.iter().map(|t| t.track_id).collect(); ids.sort();
             if ids != vec![1, 4] { failures.push(format!("{}: fetch_tracks([1,4,17]) returned {:?}", ctx, ids)); }
             if peek(&s, 1).is_some() || peek(&s, 4).is_some() || s.shard_stats().iter().sum::<usize>() != 4 { failures.push(format!("{}: fetched tracks still stored", ctx)); }
+            // ---- lookups and usable-track scans: exactly the tracks satisfying the predicate, each with its status (ready, wasted or the
+            // error of the status computation; a scan for usable tracks leaves out the pending ones only)
+            {
+                let mut st: S = TrackStore::new(PMetric::default(), PAttrs::default(), NoopNotifier, shards);
+                let plan: [(u64, f32, &str); 7] = [(10, 1.0, "ready"), (11, 701.0, "pending"), (12, 801.0, "wasted"), (13, 901.0, "error"), (14, 901.0, "error"), (15, 2.0, "ready"), (u64::MAX - 3, 801.0, "wasted")];
+                for (id, v, _) in plan.iter() { let t = mk(&st, *id, &[*v]); st.add_track(t).unwrap(); }
+                let name = |r: &Result<TrackStatus>| match r { Ok(TrackStatus::Ready) => "ready", Ok(TrackStatus::Pending) => "pending", Ok(TrackStatus::Wasted) => "wasted", Err(_) => "error" };
+                let mut all: Vec<(u64, &str)> = st.lookup(NoopLookup::default()).iter().map(|(id, r)| (*id, name(r))).collect(); all.sort();
+                let mut want_all: Vec<(u64, &str)> = plan.iter().map(|(id, _, n)| (*id, *n)).collect(); want_all.sort();
+                if all != want_all { failures.push(format!("{}: lookup (predicate true for every track) returned {:?}, stored with status {:?}", ctx, all, want_all)); }
+                let mut usable: Vec<(u64, &str)> = st.find_usable().iter().map(|(id, r)| (*id, name(r))).collect(); usable.sort();
+                let want_usable: Vec<(u64, &str)> = want_all.iter().filter(|x| x.1 != "pending").cloned().collect();
+                if usable != want_usable { failures.push(format!("{}: the scan for usable tracks returned {:?}, expected every non-pending track with its status {:?}", ctx, usable, want_usable)); }
+                if st.shard_stats().iter().sum::<usize>() != plan.len() { failures.push(format!("{}: a lookup / usable scan changed the store", ctx)); }
+            }
             // ---- merges report failure
             let ext = mk(&s, 50, &[5.0]);
             if s.merge_external(77, &ext, None, true).is_ok() { failures.push(format!("{}: merge_external into a missing destination reports Ok", ctx)); }
@@ -128,6 +151,19 @@ mod verif_probe_store_c09 {
             }
             // ---- a successful merge with history enabled appends the source's history once, also when the requested class is held by the destination only
             {
+                // ... every time: a source kept in the store and merged into the same destination again is appended again, and so is a
+                // source whose ids reached the destination by another route
+                {
+                    let mut sr: S = TrackStore::new(PMetric::default(), PAttrs::default(), NoopNotifier, shards);
+                    for id in [30u64, 31, 32] { let t = mk(&sr, id, &[id as f32]); sr.add_track(t).unwrap(); }
+                    let mut want = vec![30u64];
+                    for (src, hist) in [(31u64, vec![31u64]), (31, vec![31]), (32, vec![32]), (31, vec![31])] {
+                        match sr.merge_owned(30, src, None, false, true) {
+                            Ok(None) => { want.extend(hist); let h = peek(&sr, 30).map(|v| v.4); if h.as_ref() != Some(&want) { failures.push(format!("{}: repeated merge_owned({} into 30, source kept, history on) left the merge history {:?}, expected {:?}", ctx, src, h, want)); } }
+                            other => failures.push(format!("{}: merge_owned({} into 30, source kept) returned {:?}", ctx, src, other.map(|o| o.map(|t| t.track_id)).map_err(|e| e.to_string()))),
+                        }
+                    }
+                }
                 let mut sh: S = TrackStore::new(PMetric::default(), PAttrs::default(), NoopNotifier, shards);
                 let mut d = sh.new_track(10).observation((2, Some(1.0), None, Some(PUpd))).build().unwrap(); d.merge_history = vec![10];
                 sh.add_track(d).unwrap();
